@@ -8,6 +8,7 @@ send_error hook of their sweep, other operations starting and resuming in betwee
 import SmppVerif.Lemmas.Expiry
 import SmppVerif.Lemmas.RcptHistory
 import SmppVerif.Lemmas.SweepTasks
+import SmppVerif.Gen.Site
 
 namespace SmppVerif.Props.C14
 open SmppVerif SmppVerif.Corr SmppVerif.Lemmas.Corr SmppVerif.Lemmas.Expiry
@@ -184,6 +185,14 @@ example :
     r.2 = [.timeout 1 [.sendError m1], .matched 2 m2, .stored 7 121] ∧ r.1.tasks = [] ∧ r.1.cs.store.map (·.1) = [7] := by
   decide +kernel
 
+/-- TIE TO THE SOURCE (regenerated on every run, Gen/Site.lean): the step order the turn-level model rests on — the sweep reads
+    the clock once, looks each key of its snapshot up again, DELETES the request and only then awaits `expired` (the hook);
+    `put` sweeps first, reads the clock again, then stores; `get` pops the request before it sweeps. -/
+theorem correlator_step_order :
+    Gen.Site.removeExpired = ["monotonic", "get:_store", "del:_store", "expired"] ∧
+    Gen.Site.corrPut = ["_remove_expired", "monotonic", "set:_store"] ∧
+    Gen.Site.corrGet = ["pop:_store", "_remove_expired"] := by decide
+
 end SmppVerif.Props.C14
 
 #print axioms SmppVerif.Props.C14.put_is_sweep_then_store
@@ -200,3 +209,4 @@ end SmppVerif.Props.C14
 #print axioms SmppVerif.Props.C14.interleaved_never_early
 #print axioms SmppVerif.Props.C14.interleaved_nothing_passed_over
 #print axioms SmppVerif.Props.C14.atomic_sweep_is_uninterrupted_turns
+#print axioms SmppVerif.Props.C14.correlator_step_order
